@@ -273,6 +273,8 @@ impl Directive {
                             include_depth: include_depth + 1,
                         };
                         parse_file_internal(&context)?;
+                        let added = context.include_paths.borrow().clone();
+                        include_paths.borrow_mut().extend(added);
                     } else {
                         bail!("wrong format for .include, expected: {} in {}", opts, point,);
                     }
